@@ -30,6 +30,8 @@ const EVENTS: &[&str] = &[
     "L HSET h f v g w i x", "L HDEL h g",
     // a local command that empties the keyspace: what the node has observed stays observed
     "L FLUSHALL",
+    // 300 writes of 300 other keys: what is recovered afterwards is far more than any batching or chunking constant
+    "L BULK 300",
 ];
 const POST: &[&str] = &["SET k new", "APPEND k z", "HSET h f new", "INCR n", "DEL k", "HSET h i new", "DEL h",
     // every other command of the replicated set
@@ -121,8 +123,15 @@ async fn run_phase1(node: &ReplicatedShardedState<VerifTime>, events: &[usize]) 
         let ev = EVENTS[*e];
         let parts: Vec<&str> = ev.split(' ').collect();
         if parts[0] == "L" {
-            let cmd = resp::parse(&resp::line(&ev[2..])).expect("event parses");
-            node.execute(cmd).await;
+            if parts[1] == "BULK" {
+                let n: usize = parts[2].parse().unwrap();
+                for i in 0..n {
+                    node.execute(resp::parse(&resp::line(&format!("SET filler{i:04} x"))).unwrap()).await;
+                }
+            } else {
+                let cmd = resp::parse(&resp::line(&ev[2..])).expect("event parses");
+                node.execute(cmd).await;
+            }
             let ds = node.collect_pending_deltas().await;
             for d in &ds {
                 // a command that changed nothing (e.g. HDEL of a field that does not exist) may re-send the
@@ -393,7 +402,8 @@ fn main() {
     let mut seqs: Vec<Vec<usize>> = Vec::new();
     let mut cur: Vec<Vec<usize>> = vec![vec![]];
     for _ in 0..max_events {
-        cur = cur.iter().flat_map(|s| (0..EVENTS.len()).map(move |e| { let mut x = s.clone(); x.push(e); x })).collect();
+        // (the bulk event, last in EVENTS, has its own cases below)
+        cur = cur.iter().flat_map(|s| (0..EVENTS.len() - 1).map(move |e| { let mut x = s.clone(); x.push(e); x })).collect();
         seqs.extend(cur.iter().cloned());
     }
     if thorough {
@@ -437,6 +447,22 @@ fn main() {
             }
         }
     }
+    // bulk: a recovery that has to replay hundreds of updates (of other keys) around the key's own two writes
+    let bulk = EVENTS.iter().position(|e| *e == "L BULK 300").unwrap();
+    let mut bulk_cases = 0u64;
+    for evs in [vec![0usize, bulk, 1], vec![bulk, 0, 1], vec![0, 1, bulk]] {
+        for src in sources.iter().flatten() {
+            for post in [0usize, 1, 4] {
+                for group in [0usize, 2] {
+                    if group == 2 && !src.segments {
+                        continue;
+                    }
+                    cases.push(Case { events: evs.clone(), src: Some(*src), post, group, causal: false });
+                    bulk_cases += 1;
+                }
+            }
+        }
+    }
     // causal consistency level: every sequence of <= 2 (thorough 3) events, every source set, every post-restart write
     let causal_len = if thorough { 3 } else { 2 };
     let mut causal_cases = 0u64;
@@ -464,8 +490,9 @@ fn main() {
     let coverage = json!({
         "evaluations": n.load(Ordering::Relaxed),
         "distinct_nontrivial": checked,
-        "rule": "every sequence of <=3 events (thorough adds length 4 over 6 core events) over {8 local writes on a string key, a hash key (single- and three-field HSET, HDEL) and a counter; 7 remote deltas from replicas 2/3 with stamps small / equal to the local one / far ahead, incl. a remote delete and a remote hash} on a real ReplicatedShardedState, with a crash after the last event and recovery from each of the 7 non-empty subsets of {segments, checkpoint, WAL} (plus the no-crash variant), followed by each of 15 further writes (one per command of the replicated set: SET plain / EX / KEEPTTL, GETSET, APPEND, INCR, DECR, INCRBY, DECRBY, DEL, HSET, HDEL, HINCRBY); plus every sequence of exactly 4 local events over 6 core events (incl. a three-field HSET, which advances the stamp by 3) with the emitted deltas grouped into segments so that the last two events (or all events) share a segment; plus, on a node running with ConsistencyLevel::Causal (values carry vector clocks, which a restart does not restore), every sequence of <= 2 (thorough 3) events x every source set x every further write; a case is non-trivial when the post-restart write produced a delta for a key the node had observed, so that all three oracles (stamp strictly greater; a peer holding the observed value serves the new one after merging; a second recovery serves the new one) were evaluated",
+        "rule": "every sequence of <=3 events (thorough adds length 4 over 6 core events) over {8 local writes on a string key, a hash key (single- and three-field HSET, HDEL) and a counter; 7 remote deltas from replicas 2/3 with stamps small / equal to the local one / far ahead, incl. a remote delete and a remote hash} on a real ReplicatedShardedState, with a crash after the last event and recovery from each of the 7 non-empty subsets of {segments, checkpoint, WAL} (plus the no-crash variant), followed by each of 15 further writes (one per command of the replicated set: SET plain / EX / KEEPTTL, GETSET, APPEND, INCR, DECR, INCRBY, DECRBY, DEL, HSET, HDEL, HINCRBY); plus every sequence of exactly 4 local events over 6 core events (incl. a three-field HSET, which advances the stamp by 3) with the emitted deltas grouped into segments so that the last two events (or all events) share a segment; plus, on a node running with ConsistencyLevel::Causal (values carry vector clocks, which a restart does not restore), every sequence of <= 2 (thorough 3) events x every source set x every further write; plus bulk cases: the key's two writes with 300 writes of other keys before, between or after them, every source set, three further writes, one segment per event or a single segment; a case is non-trivial when the post-restart write produced a delta for a key the node had observed, so that all three oracles (stamp strictly greater; a peer holding the observed value serves the new one after merging; a second recovery serves the new one) were evaluated",
         "causal_consistency_cases": causal_cases,
+        "bulk_recovery_cases": bulk_cases,
         "event_sequences": seqs.len(),
         "recovery_source_sets": sources.len(),
         "cases": cases.len(),
